@@ -502,6 +502,8 @@ func c08Run(rec *evid.Recorder, c c08Case) bool {
 var c08SubPool = []val{vNull(), vInt(0), vInt(-7), vInt(3), vLong(-9223372036854775807), vLong(9007199254740993), vDouble(2.5), vDouble(-0.5), vFloat(1.5), vString("abc"), vString("12"), vString(""),
 	vBool(true), vSpan(1500 * time.Millisecond), vTime(time.Date(2020, 2, 29, 12, 0, 0, 0, time.UTC)), vArray(vInt(1), vString("a")),
 	vTime(time.Date(2024, 1, 1, 1, 30, 0, 0, east3)),
+	// doubles beside a rounding tie and odd integers with 53 significant bits (fixed points of every rounding function)
+	vDouble(0.49999999999999994), vDouble(-0.49999999999999994), vDouble(4503599627370497), vLong(4503599627370497), vDouble(-2.5), vDouble(1.5),
 	// instants written with an offset of their own, close to midnight there; time spans inside one millisecond
 	vString("2024-01-02T01:30:00+14:00"), vString("2024-01-01T22:30:00-11:00"), vSpan(250 * time.Microsecond), vSpan(900 * time.Microsecond), vSpan(-999 * time.Microsecond),
 	// two more instants inside the second of the one above: ordering is by instant, not by calendar second
@@ -582,7 +584,7 @@ func TestC08_Rapid(t *testing.T) {
 func TestC08_EnumRandomRange(t *testing.T) {
 	rec := evid.New("C08", "TestC08_EnumRandomRange", "C08", c08Rule+"; random range: every draw of Rnd / Random must lie in [0, 1)")
 	defer finish(t, rec)
-	perWorker := pick(2000000, 30000000)
+	perWorker := pick(8000000, 40000000)
 	workers := 16
 	rec.Bounds = fmt.Sprintf("%d draws of Rnd and Random (%d workers x %d)", workers*perWorker, workers, perWorker)
 	var bad int64
